@@ -1,12 +1,19 @@
 """C11 — lexically_normal returns the C++17 normal form and is idempotent."""
 import path_common as pc
 
+from vlib import REPO
+
 def run(ck):
     ck.level = "proof"
     ck.cov["rule"] = ("every string over {'/', '.', 'a'} up to length 9 (quick) / 12 (thorough) plus seeded random strings: the output text is compared with the model; "
                       "the harness checks on the implementation itself that the result is in normal form, is the same path as libstdc++'s lexically_normal, and that "
                       "normalising it again returns it unchanged; the Lean transcription of [fs.path.generic]/6 is cross-checked against libstdc++")
     ck.assumptions += ["POSIX build", "zix collapses a multi-separator root to one separator (same path)"]
+    try:
+        import gen_charclass
+        ck.write_generated("CharClass.lean", gen_charclass.generate(REPO, ck.work))
+    except Exception as e:
+        ck.machinery_error("translator gen_charclass failed: %r" % (e,)); return
     if not ck.build_driver(): return
     if not ck.prove(["ZixModel.Properties.C11", "ZixModel.Properties.C12Buf"]):
         ck.report_proof_failure("theorems about lexically_normal no longer build")
